@@ -17,6 +17,7 @@ mod summary;
 mod languages;
 mod codepages;
 mod faults;
+mod limits;
 
 use std::collections::HashMap;
 
@@ -72,6 +73,7 @@ fn main() {
         "languages" => languages::main(&args),
         "codepages" => codepages::main(&args),
         "faults" => faults::main(&args),
+        "limits" => limits::main(&args),
         "summary-random" => summary::random_main(&args),
         "repr" => {
             // representability facts (reference encoder) for the characters the bounded models use
